@@ -452,20 +452,52 @@ impl Val for [u64; 0] {
     }
 }
 
+/// Text of a payload: every third payload carries characters that need escaping in JSON.
+fn text_of(pay: u64) -> String {
+    if pay % 3 == 0 {
+        format!("s{}\n\"q\\", pay)
+    } else {
+        format!("s{}", pay)
+    }
+}
+
+fn pay_of_text(s: &str) -> u64 {
+    let digits: String = s.strip_prefix('s').unwrap_or("").chars().take_while(|c| c.is_ascii_digit()).collect();
+    match digits.parse::<u64>() {
+        Ok(p) if text_of(p) == s => p,
+        _ => u64::MAX,
+    }
+}
+
 impl Val for String {
     const CLASS: u8 = 0;
     const TRACKED: bool = false;
     fn make(pay: u64) -> Self {
-        format!("s{}", pay)
+        text_of(pay)
     }
     fn obs(&self) -> Obs {
-        let pay = self.strip_prefix('s').and_then(|x| x.parse::<u64>().ok()).unwrap_or(u64::MAX);
-        Obs { inst: 0, pay }
+        Obs { inst: 0, pay: pay_of_text(self) }
     }
     fn set_pay(&mut self, pay: u64) {
-        use std::fmt::Write;
         self.clear();
-        let _ = write!(self, "s{}", pay);
+        self.push_str(&text_of(pay));
+    }
+    fn norm(pay: u64) -> u64 {
+        pay
+    }
+}
+
+impl Val for Box<str> {
+    const CLASS: u8 = 0;
+    const TRACKED: bool = false;
+    fn make(pay: u64) -> Self {
+        text_of(pay).into_boxed_str()
+    }
+    fn obs(&self) -> Obs {
+        Obs { inst: 0, pay: pay_of_text(self) }
+    }
+    fn set_pay(&mut self, pay: u64) {
+        *self = text_of(pay).into_boxed_str();
     }
     fn norm(pay: u64) -> u64 {
         pay
